@@ -59,9 +59,9 @@ def get_splicers(fname, out):
                     #                    print("END", end_tag)
                     if begin_tag != end_tag:
                         raise RuntimeError(
-                            "Mismatched tags  '%s' '%s'", (begin_tag, end_tag)
+                            "Mismatched tags  '%s' '%s'" % (begin_tag, end_tag)
                         )
-                    if end_tag in top:
+                    if begin_subtag in top:
                         raise RuntimeError(
                             "Tag already exists - '%s'" % begin_tag
                         )
